@@ -12,8 +12,11 @@ namespace PonyVerif.Props.C28
 open PonyVerif.Model.Tracked PonyVerif.Gen.TrackedTable
 
 /-- session invariant: `Inv_wrapped` (every mutable container reachable from the attribute value is a Tracked wrapper),
-    a clean object has the value of the database, the database holds plain JSON -/
-def Inv (s : St) : Prop := allW s.doc = true ∧ (s.dirty = false → s.db = ser s.doc) ∧ isPlain s.db = true
+    an object that has a row and whose bit is not set has the value of the database, the database holds plain JSON,
+    the attribute's write bit is only set on a 'modified' object -/
+def Inv (s : St) : Prop :=
+  allW s.doc = true ∧ (s.status ≠ .created → s.dirty = false → s.db = ser s.doc) ∧ isPlain s.db = true
+    ∧ (s.dirty = true → s.status = .modified)
 
 /-- the decidable guard of the partial theorems in readable form: the values stored by the operation contain no tuples and
     iterable arguments are of a kind that the method wraps (`list`, and `dict`/keyword arguments for `update`) -/
@@ -31,18 +34,32 @@ def jsonOK (cfg : Cfg) : Op → Bool
 /-! ### Inv_wrapped is established on load and on assignment -/
 
 /-- loading: `dbval2val` = `make(json.loads(...))` gives a fully wrapped value, for every JSON document -/
-theorem C28_load_wrapped (cfg : Cfg) (v : T) (hv : isPlain v = true) : Inv (St.load cfg v) := by
-  refine ⟨?_, ?_, hv⟩
+theorem C28_load_wrapped (cfg : Cfg) (v : T) (hv : isPlain v = true) (vol : Bool := false) : Inv (St.load cfg v vol) := by
+  refine ⟨?_, ?_, hv, ?_⟩
   · exact make_allW_of_tupFree cfg v (isPlain_tupFree v hv)
-  · intro _; exact (ser_make cfg v hv).symm
+  · intro _ _; exact (ser_make cfg v hv).symm
+  · intro h; cases h
+
+/-- a new object `E(attr=v)`: `validate` wraps the value (the object is 'created': no row, no write bits) -/
+theorem C28_create_wrapped (cfg : Cfg) (v : T) (hv : tupFree v = true ∨ cfg.makeTuple = true) (vol : Bool := false) :
+    Inv (St.create cfg v vol) := by
+  refine ⟨?_, ?_, rfl, ?_⟩
+  · rcases hv with hv | hv
+    · exact make_allW_of_tupFree cfg v hv
+    · exact make_allW cfg hv v
+  · intro h; exact absurd rfl h
+  · intro h; cases h
 
 /-- assignment `obj.attr = v` of any value without tuples (and of any value at all if `make` wraps tuples) -/
 theorem C28_assign_wrapped (cfg : Cfg) (s : St) (v : T) (hv : tupFree v = true ∨ cfg.makeTuple = true) :
-    allW (step cfg s (.assign v)).1.doc = true ∧ (step cfg s (.assign v)).1.dirty = true := by
-  refine ⟨?_, rfl⟩
-  rcases hv with hv | hv
-  · exact make_allW_of_tupFree cfg v hv
-  · exact make_allW cfg hv v
+    allW (step cfg s (.assign v)).1.doc = true ∧ (s.status ≠ .created → (step cfg s (.assign v)).1.dirty = true) := by
+  have hd : (step cfg s (.assign v)).1.doc = make cfg v := by simp only [step, attrChanged]; split <;> rfl
+  refine ⟨?_, ?_⟩
+  · rw [hd]
+    rcases hv with hv | hv
+    · exact make_allW_of_tupFree cfg v hv
+    · exact make_allW cfg hv v
+  · intro hs; simp [step, attrChanged, bitAll, hs]
 
 /-! ### the guard -/
 
@@ -102,68 +119,125 @@ theorem C28_guard_wrapsAll (cfg : Cfg) (hw : cfg.wrapsAll = true) (op : Op) : op
 
 /-! ### one step -/
 
+theorem attrChanged_doc (s : St) : (attrChanged s).doc = s.doc ∧ (attrChanged s).db = s.db := by
+  unfold attrChanged; split <;> exact ⟨rfl, rfl⟩
+
+theorem notified_doc (s : St) (n : Bool) : (notified s n).doc = s.doc ∧ (notified s n).db = s.db := by
+  unfold notified; split
+  · exact attrChanged_doc s
+  · exact ⟨rfl, rfl⟩
+
+/-- `_attr_changed_` keeps the invariant — also when the value has just been replaced by any wrapped value `d` -/
+theorem attrChanged_inv (s : St) (d : T) (hd : allW d = true) (h : Inv s) : Inv (attrChanged { s with doc := d }) := by
+  obtain ⟨_, _, h3, h4⟩ := h
+  unfold attrChanged
+  split
+  · exact ⟨hd, fun _ h => Bool.noConfusion h, h3, fun _ => rfl⟩
+  · rename_i hc
+    have hcr : s.status = .created := by simpa [bitAll] using hc
+    exact ⟨hd, fun h => absurd hcr h, h3, h4⟩
+
 theorem doFlush_inv (s : St) (h : Inv s) : Inv (doFlush s) ∧ (doFlush s).db = ser (doFlush s).doc ∧ (doFlush s).dirty = false := by
-  obtain ⟨h1, h2, h3⟩ := h
-  unfold doFlush
-  cases hd : s.dirty with
-  | true => simp [Inv, h1, isPlain_ser]
-  | false => simp [Inv, h1, h2 hd, hd, isPlain_ser]
+  obtain ⟨h1, h2, h3, h4⟩ := h
+  cases hs : s.status <;> cases hd : s.dirty <;> simp_all [doFlush, Inv, isPlain_ser]
 
 /-- `Inv` (in particular Inv_wrapped) is preserved by EVERY operation whose stored arguments come out wrapped:
-    any mutator of list / dict / array at any path with arbitrary such arguments, reads, assignment, flush, reload -/
+    any mutator of list / dict / array at any path with arbitrary such arguments, reads, assignment, a change of another
+    attribute, flush, reload — for objects of every status (created, loaded, inserted, updated, modified), volatile or not -/
 theorem C28_inv_step (cfg : Cfg) (hc : cfg.covers = true) (s : St) (op : Op) (hs : Inv s) (ha : op.argsW cfg = true) :
     Inv (step cfg s op).1 := by
-  obtain ⟨h1, h2, h3⟩ := hs
+  have hs' := hs
+  obtain ⟨h1, h2, h3, h4⟩ := hs
   cases op with
   | lmut p m =>
       simp only [step]
       split
       · rename_i d n hm
         have := modAt_sound (f := applyL cfg m) (fun t t' n ht h => applyL_sound hc ht (by simpa [Op.argsW] using ha) h) p s.doc d n h1 hm
-        exact ⟨this.1, by simp [this.2], h3⟩
-      · exact ⟨h1, fun hd => h2 (by simpa using (Bool.or_eq_false_iff.1 hd).1), h3⟩
+        rw [this.2]; exact attrChanged_inv s d this.1 hs'
+      · rename_i e n hm
+        cases n
+        · exact hs'
+        · exact attrChanged_inv s s.doc h1 hs'
   | dmut p m =>
       simp only [step]
       split
       · rename_i d n hm
         have := modAt_sound (f := applyD cfg m) (fun t t' n ht h => applyD_sound hc ht (by simpa [Op.argsW] using ha) h) p s.doc d n h1 hm
-        exact ⟨this.1, by simp [this.2], h3⟩
-      · exact ⟨h1, fun hd => h2 (by simpa using (Bool.or_eq_false_iff.1 hd).1), h3⟩
-  | read p => exact ⟨h1, h2, h3⟩
-  | touch => exact ⟨h1, by simp [step], h3⟩
-  | assign v => exact ⟨by simpa [Op.argsW, step] using ha, by simp [step], h3⟩
-  | flush => exact (doFlush_inv s ⟨h1, h2, h3⟩).1
+        rw [this.2]; exact attrChanged_inv s d this.1 hs'
+      · rename_i e n hm
+        cases n
+        · exact hs'
+        · exact attrChanged_inv s s.doc h1 hs'
+  | read p => exact hs'
+  | touch => exact attrChanged_inv s s.doc h1 hs'
+  | assign v => exact attrChanged_inv s (make cfg v) (by simpa [Op.argsW] using ha) hs'
+  | other =>
+      simp only [step]
+      split
+      · rename_i hcr
+        have hcr' : s.status ≠ .created := by simpa using hcr
+        exact ⟨h1, fun _ => h2 hcr', h3, fun _ => rfl⟩
+      · exact hs'
+  | flush => exact (doFlush_inv s hs').1
+  | refresh v =>
+      simp only [step]
+      split
+      · rename_i hv
+        simp only [Bool.and_eq_true, Bool.not_eq_true', bne_iff_ne, ne_eq] at hv
+        obtain ⟨⟨⟨⟨_, hd⟩, _⟩, hp⟩, _⟩ := hv
+        refine ⟨make_allW_of_tupFree cfg v (isPlain_tupFree v hp), fun _ _ => (ser_make cfg v hp).symm, hp, ?_⟩
+        intro h; simp [hd] at h
+      · exact hs'
   | reload v =>
       simp only [step]
       split
       · rename_i hv
         simp only [Bool.and_eq_true] at hv
-        exact C28_load_wrapped cfg v hv.1
-      · exact ⟨h1, h2, h3⟩
+        exact C28_load_wrapped cfg v hv.1 s.volatile
+      · exact hs'
 
 /-- `C28_wrapped_preserved`: Inv_wrapped after any operation (arbitrary path, arbitrary mutator, arguments under the guard) -/
 theorem C28_wrapped_preserved (cfg : Cfg) (hc : cfg.covers = true) (s : St) (op : Op) (hs : Inv s) (ha : op.argsW cfg = true) :
     allW (step cfg s op).1.doc = true := (C28_inv_step cfg hc s op hs ha).1
 
-/-- `C28_dirty`: on a wrapped value every mutating method of list / array, applied at ANY depth with ANY arguments,
-    that returns without an exception marks the object modified -/
+/-- `C28_dirty`: on a wrapped value of an object that has a row (loaded / inserted / updated / modified; the attribute volatile
+    or not — `_attr_changed_` looks the bit up in `_bits_`) every mutating method of list / array, applied at ANY depth with
+    ANY arguments, that returns without an exception sets the attribute's write bit and makes the object 'modified' -/
 theorem C28_dirty_list (cfg : Cfg) (hc : cfg.covers = true) (s : St) (hs : allW s.doc = true) (p : List Step) (m : LMut)
-    (hok : (step cfg s (.lmut p m)).2 = none) : (step cfg s (.lmut p m)).1.dirty = true := by
+    (hcr : s.status ≠ .created) (hok : (step cfg s (.lmut p m)).2 = none) :
+    (step cfg s (.lmut p m)).1.dirty = true ∧ (step cfg s (.lmut p m)).1.status = .modified := by
   simp only [step] at hok ⊢
   split
   · rename_i d n hm
     have := modAt_notifies (f := applyL cfg m) (fun t t' n ht h => applyL_notifies hc ht h) p s.doc d n hs hm
-    simp [this]
+    simp [this, notified, attrChanged, bitAll, hcr]
   · rename_i e hm; simp [hm] at hok
 
 theorem C28_dirty_dict (cfg : Cfg) (hc : cfg.covers = true) (s : St) (hs : allW s.doc = true) (p : List Step) (m : DMut)
-    (hok : (step cfg s (.dmut p m)).2 = none) : (step cfg s (.dmut p m)).1.dirty = true := by
+    (hcr : s.status ≠ .created) (hok : (step cfg s (.dmut p m)).2 = none) :
+    (step cfg s (.dmut p m)).1.dirty = true ∧ (step cfg s (.dmut p m)).1.status = .modified := by
   simp only [step] at hok ⊢
   split
   · rename_i d n hm
     have := modAt_notifies (f := applyD cfg m) (fun t t' n ht h => applyD_notifies hc ht h) p s.doc d n hs hm
-    simp [this]
+    simp [this, notified, attrChanged, bitAll, hcr]
   · rename_i e hm; simp [hm] at hok
+
+/-- `_attr_changed_` sets the write bit of EVERY attribute that has a column, a volatile one as well: the bit is looked up in
+    `_bits_`; `_bits_except_volatile_` (zero for a volatile attribute) is for the read bits of `Attribute.__get__` only -/
+theorem C28_attr_changed_any (s : St) (h : s.status ≠ .created) :
+    (attrChanged s).dirty = true ∧ (attrChanged s).status = .modified := by
+  simp [attrChanged, bitAll, h]
+
+example : bitExceptVolatile (St.load table (.atom .null) true) = false ∧ bitAll (St.load table (.atom .null) true) = true := by decide
+
+/-- a change of another attribute makes the object 'modified' without setting this attribute's bit: the next UPDATE leaves
+    the column alone, a later in-place change sets the bit again -/
+theorem C28_other_then_change (cfg : Cfg) (s : St) (h : s.status ≠ .created) :
+    (step cfg s .other).1.dirty = s.dirty ∧ (step cfg s .other).1.status = .modified
+      ∧ (attrChanged (doFlush (step cfg s .other).1)).dirty = true := by
+  simp [step, h, doFlush, attrChanged, bitAll]
 
 /-- a method that is NOT overridden changes the value without telling anybody (why the coverage table matters) -/
 theorem C28_uncovered_silent (cfg : Cfg) (w : Bool) (xs : Items) (m : LMut) (h : cfg.listOv.contains m.meth = false)
@@ -183,7 +257,7 @@ theorem C28_error_unchanged (cfg : Cfg) (s : St) (p : List Step) (m : LMut) (e :
   simp only [step] at h ⊢
   split
   · rename_i hm; simp [hm] at h
-  · exact ⟨rfl, rfl⟩
+  · exact notified_doc s _
 
 /-- the observation point of the property: when the session ends and a new session reads the value (`v` = what the database
     returns), `v` is the value the old session saw (as JSON, up to the order of object keys) and it is fully wrapped again -/
@@ -195,7 +269,7 @@ theorem C28_new_session (cfg : Cfg) (s : St) (hs : Inv s) (v : T) (hok : (step c
   split
   · rename_i hv
     simp only [Bool.and_eq_true] at hv
-    refine ⟨?_, rfl, C28_load_wrapped cfg v hv.1⟩
+    refine ⟨?_, rfl, C28_load_wrapped cfg v hv.1 s.volatile⟩
     rw [← hdoc, ← hf.2.1]; exact hv.2
   · rename_i hv; simp [hv] at hok
 
@@ -209,11 +283,11 @@ theorem C28_inv_run (cfg : Cfg) (hc : cfg.covers = true) (ops : List Op) :
       intro s hs ha
       exact ih _ (C28_inv_step cfg hc s op hs (ha op (by simp))) (fun o ho => ha o (by simp [ho]))
 
-/-- the full statement for a given table: whatever document was loaded and whatever is done to it, what the database
-    holds after the commit is the value the session sees -/
+/-- the full statement for a given table: whatever document was loaded into a plain or a volatile attribute and whatever is
+    done to it, what the database holds after the commit is the value the session sees -/
 def Full (cfg : Cfg) : Prop :=
-  ∀ (v : T), isPlain v = true → ∀ ops : List Op,
-    (run cfg (ops ++ [.flush]) (St.load cfg v)).db = ser (run cfg (ops ++ [.flush]) (St.load cfg v)).doc
+  ∀ (v : T) (vol : Bool), isPlain v = true → ∀ ops : List Op,
+    (run cfg (ops ++ [.flush]) (St.load cfg v vol)).db = ser (run cfg (ops ++ [.flush]) (St.load cfg v vol)).doc
 
 /-- `C28_persist` (partial: guard `argsW`): for every table that covers the mutators, every start state satisfying the
     invariant, every sequence of operations whose stored arguments come out wrapped -/
@@ -226,9 +300,14 @@ theorem C28_persist (cfg : Cfg) (hc : cfg.covers = true) (s0 : St) (h0 : Inv s0)
 
 /-- ordinary JSON (dict / list / scalars handed in directly, in lists, dicts or keyword arguments): persisted, for the
     table generated from the current source -/
-theorem C28_persist_json_current (v : T) (hv : isPlain v = true) (ops : List Op) (ha : ∀ op ∈ ops, jsonOK table op = true) :
-    (run table (ops ++ [.flush]) (St.load table v)).db = ser (run table (ops ++ [.flush]) (St.load table v)).doc :=
-  (C28_persist table (by decide) _ (C28_load_wrapped table v hv) ops (fun op ho => C28_guard_json table op (ha op ho))).1
+theorem C28_persist_json_current (v : T) (hv : isPlain v = true) (vol : Bool) (ops : List Op) (ha : ∀ op ∈ ops, jsonOK table op = true) :
+    (run table (ops ++ [.flush]) (St.load table v vol)).db = ser (run table (ops ++ [.flush]) (St.load table v vol)).doc :=
+  (C28_persist table (by decide) _ (C28_load_wrapped table v hv vol) ops (fun op ho => C28_guard_json table op (ha op ho))).1
+
+/-- the same for an object created in this session (no row, no write bits until the first flush) -/
+theorem C28_persist_created_json_current (v : T) (hv : tupFree v = true) (vol : Bool) (ops : List Op) (ha : ∀ op ∈ ops, jsonOK table op = true) :
+    (run table (ops ++ [.flush]) (St.create table v vol)).db = ser (run table (ops ++ [.flush]) (St.create table v vol)).doc :=
+  (C28_persist table (by decide) _ (C28_create_wrapped table v (.inl hv) vol) ops (fun op ho => C28_guard_json table op (ha op ho))).1
 
 /-- coverage of the current source: every mutating method of list and dict is overridden in TrackedList, TrackedDict and
     TrackedArray (finite check over the generated table) -/
@@ -250,8 +329,8 @@ theorem C28_reference_consistent :
 /-! ### the full statement holds exactly for the tables that wrap everything -/
 
 theorem C28_full_of_wrapsAll (cfg : Cfg) (hc : cfg.covers = true) (hw : cfg.wrapsAll = true) : Full cfg := by
-  intro v hv ops
-  exact (C28_persist cfg hc _ (C28_load_wrapped cfg v hv) ops (fun op _ => C28_guard_wrapsAll cfg hw op)).1
+  intro v vol hv ops
+  exact (C28_persist cfg hc _ (C28_load_wrapped cfg v hv vol) ops (fun op _ => C28_guard_wrapsAll cfg hw op)).1
 
 /-! ### … and only for those: a witness for every way of leaving a stored container unwrapped -/
 
@@ -273,50 +352,50 @@ def witnessT : List Op :=
 
 theorem C28_lost_extend (cfg : Cfg) (hc : cfg.covers = true) (k : IterKind) (hu : cfg.wraps .extend k = false) : ¬ Full cfg := by
   intro hF
-  have h := hF v0 (by decide) (witnessL .extend k)
+  have h := hF v0 false (by decide) (witnessL .extend k)
   have h1 : LM.extend ∈ cfg.listOv := by simpa using Cfg.covers_list hc .extend
   have h2 : LM.append ∈ cfg.listOv := by simpa using Cfg.covers_list hc .append
-  simp [witnessL, run, step, St.load, v0, elemE, one, make, makeL, modAt, locate, normIdx, applyL, lEffect, LMut.prep, LMut.meth, makeVals,
+  simp [witnessL, run, step, notified, attrChanged, bitAll, St.load, v0, elemE, one, make, makeL, modAt, locate, normIdx, applyL, lEffect, LMut.prep, LMut.meth, makeVals,
     doFlush, ser, serL, Kind.ser, h1, h2, hu, li, List.findIdx?_cons] at h
 
 theorem C28_lost_iadd (cfg : Cfg) (hc : cfg.covers = true) (k : IterKind) (hu : cfg.wraps .iadd k = false) : ¬ Full cfg := by
   intro hF
-  have h := hF v0 (by decide) (witnessL .iadd k)
+  have h := hF v0 false (by decide) (witnessL .iadd k)
   have h1 : LM.iadd ∈ cfg.listOv := by simpa using Cfg.covers_list hc .iadd
   have h2 : LM.append ∈ cfg.listOv := by simpa using Cfg.covers_list hc .append
-  simp [witnessL, run, step, St.load, v0, elemE, one, make, makeL, modAt, locate, normIdx, applyL, lEffect, LMut.prep, LMut.meth, makeVals,
+  simp [witnessL, run, step, notified, attrChanged, bitAll, St.load, v0, elemE, one, make, makeL, modAt, locate, normIdx, applyL, lEffect, LMut.prep, LMut.meth, makeVals,
     doFlush, ser, serL, Kind.ser, h1, h2, hu, li, List.findIdx?_cons] at h
 
 theorem C28_lost_setslice (cfg : Cfg) (hc : cfg.covers = true) (k : IterKind) (hu : cfg.wraps .setslice k = false) : ¬ Full cfg := by
   intro hF
-  have h := hF v0 (by decide) (witnessL (.setslice none none) k)
+  have h := hF v0 false (by decide) (witnessL (.setslice none none) k)
   have h1 : LM.setitem ∈ cfg.listOv := by simpa using Cfg.covers_list hc .setitem
   have h2 : LM.append ∈ cfg.listOv := by simpa using Cfg.covers_list hc .append
-  simp [witnessL, run, step, St.load, v0, elemE, one, make, makeL, modAt, locate, normIdx, applyL, lEffect, LMut.prep, LMut.meth, makeVals,
+  simp [witnessL, run, step, notified, attrChanged, bitAll, St.load, v0, elemE, one, make, makeL, modAt, locate, normIdx, applyL, lEffect, LMut.prep, LMut.meth, makeVals,
     sliceBounds, doFlush, ser, serL, Kind.ser, h1, h2, hu, li, List.findIdx?_cons] at h
 
 theorem C28_lost_update (cfg : Cfg) (hc : cfg.covers = true) (k : IterKind) (hu : cfg.wraps .update k = false) : ¬ Full cfg := by
   intro hF
-  have h := hF v0 (by decide) (witnessD (fun k ps => .update k ps []) k)
+  have h := hF v0 false (by decide) (witnessD (fun k ps => .update k ps []) k)
   have h1 : DM.update ∈ cfg.dictOv := by simpa using Cfg.covers_dict hc .update
   have h2 : LM.append ∈ cfg.listOv := by simpa using Cfg.covers_list hc .append
-  simp [witnessD, run, step, St.load, v0, elemE, one, make, makeL, modAt, locate, normIdx, applyL, applyD, lEffect, dEffect, dSetAll, dSet,
+  simp [witnessD, run, step, notified, attrChanged, bitAll, St.load, v0, elemE, one, make, makeL, modAt, locate, normIdx, applyL, applyD, lEffect, dEffect, dSetAll, dSet,
     LMut.meth, DMut.prep, DMut.meth, makePairs, doFlush, ser, serL, Kind.ser, h1, h2, hu, li, List.findIdx?_cons] at h
 
 theorem C28_lost_ior (cfg : Cfg) (hc : cfg.covers = true) (k : IterKind) (hu : cfg.wraps .ior k = false) : ¬ Full cfg := by
   intro hF
-  have h := hF v0 (by decide) (witnessD .ior k)
+  have h := hF v0 false (by decide) (witnessD .ior k)
   have h1 : DM.ior ∈ cfg.dictOv := by simpa using Cfg.covers_dict hc .ior
   have h2 : LM.append ∈ cfg.listOv := by simpa using Cfg.covers_list hc .append
-  simp [witnessD, run, step, St.load, v0, elemE, one, make, makeL, modAt, locate, normIdx, applyL, applyD, lEffect, dEffect, dSetAll, dSet,
+  simp [witnessD, run, step, notified, attrChanged, bitAll, St.load, v0, elemE, one, make, makeL, modAt, locate, normIdx, applyL, applyD, lEffect, dEffect, dSetAll, dSet,
     LMut.meth, DMut.prep, DMut.meth, makePairs, doFlush, ser, serL, Kind.ser, h1, h2, hu, li, List.findIdx?_cons] at h
 
 theorem C28_lost_tuple (cfg : Cfg) (hc : cfg.covers = true) (hu : cfg.makeTuple = false) : ¬ Full cfg := by
   intro hF
-  have h := hF v0 (by decide) witnessT
+  have h := hF v0 false (by decide) witnessT
   have h2 : LM.append ∈ cfg.listOv := by simpa using Cfg.covers_list hc .append
   have hm : cfg.tupleMode = .leave := by simpa [Cfg.makeTuple] using hu
-  simp [witnessT, run, step, St.load, v0, one, make, makeL, modAt, locate, normIdx, applyL, lEffect, LMut.prep, LMut.meth,
+  simp [witnessT, run, step, notified, attrChanged, bitAll, St.load, v0, one, make, makeL, modAt, locate, normIdx, applyL, lEffect, LMut.prep, LMut.meth,
     doFlush, ser, serL, Kind.ser, h2, hm, li] at h
 
 /-- `C28_full_iff`: for a table that covers the mutators, the full statement (every change made in place, through any
